@@ -21,6 +21,20 @@
  *          a context store built through the API (c: coap_context_oscore_server, a/d: coap_new_/coap_delete_oscore_recipient)
  *          and direct calls of oscore_find_context(); output ` c:<0|1>` ` a:<0|1>` ` d:<0|1>` ` f:<i>.<j>|none`, then the
  *          store ` store=<idctx|none>:<rid>,<rid>;…`.
+ *   oinj   <C: 5> <S: 5> <cseq> <sseq> <newmid|-1> <req> <resp|-> <piv 0|1> <q|r> <num:hex[,num:hex]*>
+ *          OUTER OPTIONS ADDED ON THE PATH: the request (q) or the response (r) is protected as for tamper, then the
+ *          listed options are added to the protected datagram (each after the options with a number <= its own; the
+ *          datagram is re-encoded by the harness itself, not by libcoap) and the result is delivered.  Neither the
+ *          ciphertext nor the OSCORE option is touched.  Output: `dg=<the datagram delivered> u=<delivery>`.
+ *   oscx   <sseq> <newmid|-1> <nS> { <secret> <salt> <idctx> <sid> <rid[,rid]*> }*nS <nC> { <i>.<j> <cseq> }*nC
+ *          { q <k> <req> <d|l> | r <k> <resp> <piv 0|1> <d|l> }*
+ *          SEVERAL CLIENTS, each with the security context matching the server's pair (context i, recipient j), behind ONE
+ *          server session (the hop from a proxy): q = client k protects a request (delivered to the server session / lost),
+ *          r = the server protects a response for the token in <resp>; the datagram is delivered to client k.  Output: the
+ *          transcript ` req= ureq= resp= uresp=`, then ` |` and the trace of the SERVER session: after every delivered
+ *          request ` s:<i.j>` (session->recipient_ctx) ` a:<i.j>,<partial_iv>,<is_observe>` (the association of the
+ *          request's token), for every response ` p:<i>` (the context whose Sender Sequence Number advanced, `-` none)
+ *          ` a:…|none` (the association of the token afterwards).
  *   optenc <piv> <kidctx|none> <kid|none> <b2 0|1>      optdec <hex>
  *   aad <alg> <kid> <piv>        nonce <civ> <kid> <piv>     derive <secret> <salt> <idctx> <sid> <rid>
  *   sha256 <m>   hmac <key> <m>   hkdf <salt> <ikm> <info> <len>   ccm <key> <nonce> <aad> <pt>
@@ -664,6 +678,228 @@ static void do_findctx(char **w, int n) {
   oscore_free_contexts(ctx);
 }
 
+
+/* ---- outer options added on the path (oinj) ------------------------------------------------ */
+
+struct h_opt { unsigned num; const uint8_t *v; size_t len; };
+
+static size_t put_ext(uint8_t *o, unsigned v, unsigned *nib) {
+  if (v < 13) { *nib = v; return 0; }
+  if (v < 269) { *nib = 13; o[0] = (uint8_t)(v - 13); return 1; }
+  *nib = 14; o[0] = (uint8_t)((v - 269) >> 8); o[1] = (uint8_t)((v - 269) & 0xff); return 2;
+}
+
+/* the datagram dg with the options of `spec` (num:hex,…) added; NULL if dg is not a well-formed UDP CoAP datagram */
+static uint8_t *inject_opts(const uint8_t *dg, size_t len, const char *spec, size_t *outlen) {
+  static struct h_opt o[96];
+  static uint8_t vals[2048];
+  int no = 0;
+  size_t p, vused = 0, q;
+  unsigned num = 0, prev = 0;
+  uint8_t *out;
+  char *copy, *item, *save = NULL;
+  if (len < 4 || (dg[0] & 15) > 8 || 4 + (size_t)(dg[0] & 15) > len) return NULL;
+  p = 4 + (dg[0] & 15);
+  while (p < len && dg[p] != 0xFF) {
+    unsigned d = dg[p] >> 4, l = dg[p] & 15;
+    p++;
+    if (d == 15 || l == 15) return NULL;
+    if (d == 13) { if (p >= len) return NULL; d = dg[p] + 13; p += 1; }
+    else if (d == 14) { if (p + 1 >= len) return NULL; d = dg[p] * 256 + dg[p + 1] + 269; p += 2; }
+    if (l == 13) { if (p >= len) return NULL; l = dg[p] + 13; p += 1; }
+    else if (l == 14) { if (p + 1 >= len) return NULL; l = dg[p] * 256 + dg[p + 1] + 269; p += 2; }
+    if (p + l > len || no >= 80) return NULL;
+    num += d;
+    o[no].num = num; o[no].v = dg + p; o[no].len = l; no++;
+    p += l;
+  }
+  copy = strdup(spec);
+  for (item = strtok_r(copy, ",", &save); item; item = strtok_r(NULL, ",", &save)) {
+    char *colon = strchr(item, ':');
+    size_t vl = 0; uint8_t *vb;
+    unsigned n;
+    int at;
+    if (!colon || no >= 95) { free(copy); return NULL; }
+    *colon = 0;
+    n = (unsigned)strtoul(item, NULL, 10);
+    vb = h_unhex(colon[1] ? colon + 1 : "-", &vl);
+    if (!vb || vused + vl > sizeof(vals)) { free(vb); free(copy); return NULL; }
+    memcpy(vals + vused, vb, vl);
+    free(vb);
+    for (at = 0; at < no && o[at].num <= n; at++) ;
+    memmove(&o[at + 1], &o[at], (size_t)(no - at) * sizeof(o[0]));
+    o[at].num = n; o[at].v = vals + vused; o[at].len = vl; no++;
+    vused += vl;
+  }
+  free(copy);
+  out = (uint8_t *)malloc(len + vused + 5 * 96 + 16);
+  q = 4 + (dg[0] & 15);
+  memcpy(out, dg, q);
+  for (int k = 0; k < no; k++) {
+    unsigned dn, ln;
+    uint8_t *h = out + q++;
+    q += put_ext(out + q, o[k].num - prev, &dn);
+    q += put_ext(out + q, (unsigned)o[k].len, &ln);
+    *h = (uint8_t)(dn << 4 | ln);
+    memcpy(out + q, o[k].v, o[k].len);
+    q += o[k].len;
+    prev = o[k].num;
+  }
+  memcpy(out + q, dg + p, len - p);
+  *outlen = q + (len - p);
+  return out;
+}
+
+static void do_oinj(char **w) {
+  size_t dglen, inlen; int target, v;
+  coap_pdu_t *res;
+  uint8_t *dg = tamper_setup(w, &dglen, &target), *in;
+  if (!dg) { printf("setup-fail"); endpoint_down(0); endpoint_down(1); return; }
+  in = inject_opts(dg, dglen, w[18], &inlen);
+  free(dg);
+  if (!in) { printf("bad-input"); endpoint_down(0); endpoint_down(1); return; }
+  printf("dg="); h_puthex(stdout, in, inlen);
+  v = deliver(target, in, inlen, &res);
+  free(in);
+  printf(" u="); print_delivery(v, res);
+  endpoint_down(0); endpoint_down(1);
+}
+
+/* ---- several clients (contexts) behind one server session (oscx) ----------------------------- */
+
+#define MAX_XC 4
+static coap_context_t *g_xctx[MAX_XC];
+static coap_session_t *g_xsess[MAX_XC];
+
+static void fprint_sel(FILE *f, const coap_context_t *ctx, const oscore_recipient_ctx_t *r) {
+  int i = 0;
+  for (const oscore_ctx_t *pt = ctx->p_osc_ctx; pt; pt = pt->next, i++) {
+    int j = 0;
+    for (const oscore_recipient_ctx_t *rp = pt->recipient_chain; rp; rp = rp->next_recipient, j++)
+      if (rp == r) { fprintf(f, "%d.%d", i, j); return; }
+  }
+  fprintf(f, "none");
+}
+
+static void trace_srv_assoc(FILE *t, const coap_bin_const_t *tok) {
+  oscore_association_t *a;
+  coap_lock_lock(g_ctx[1], return);
+  a = oscore_find_association(g_sess[1], tok);
+  coap_lock_unlock(g_ctx[1]);
+  fprintf(t, " a:");
+  if (!a) { fprintf(t, "none"); return; }
+  fprint_sel(t, g_ctx[1], a->recipient_ctx);
+  fputc(',', t);
+  if (a->partial_iv) h_puthex(t, a->partial_iv->s, a->partial_iv->length); else fputc('-', t);
+  fprintf(t, ",%d", a->is_observe ? 1 : 0);
+}
+
+static void do_oscx(char **w, int n) {
+  long newmid = atol(w[2]);
+  int ns = atoi(w[3]), nc, base, k, delivered;
+  coap_context_t *main0 = g_ctx[0];
+  char *tbuf = NULL; size_t tlen = 0;
+  FILE *t;
+  if (ns < 1 || ns > 8 || 4 + 5 * ns >= n) { printf("bad-op"); return; }
+  nc = atoi(w[4 + 5 * ns]);
+  base = 5 + 5 * ns + 2 * nc;
+  if (nc < 1 || nc > MAX_XC || base > n) { printf("bad-op"); return; }
+  for (k = 0; k < ns; k++)
+    if (!ctx_add(1, w + 4 + 5 * k, strtoull(w[1], NULL, 10))) { printf("bad-context"); endpoint_down(1); return; }
+  session_up(1);
+  for (k = 0; k < nc; k++) {
+    /* client k is the peer of the server's pair (i, j): same secret / salt / ID Context, Sender ID = that Recipient ID */
+    static char rid[64];
+    char *p[5], *e, *save = NULL, *r;
+    static char rids[512];
+    int i = atoi(w[5 + 5 * ns + 2 * k]), j, ok;
+    e = strchr(w[5 + 5 * ns + 2 * k], '.');
+    j = e ? atoi(e + 1) : -1;
+    if (i < 0 || i >= ns || j < 0) { printf("bad-op"); goto down; }
+    snprintf(rids, sizeof(rids), "%s", w[4 + 5 * i + 4]);
+    for (r = strtok_r(rids, ",", &save); r && j > 0; r = strtok_r(NULL, ",", &save), j--) ;
+    if (!r) { printf("bad-op"); goto down; }
+    snprintf(rid, sizeof(rid), "%s", r);
+    p[0] = w[4 + 5 * i]; p[1] = w[4 + 5 * i + 1]; p[2] = w[4 + 5 * i + 2]; p[3] = rid; p[4] = w[4 + 5 * i + 3];
+    if (!g_xctx[k]) g_xctx[k] = coap_new_context(NULL);
+    g_ctx[0] = g_xctx[k]; g_sess[0] = NULL;
+    ok = endpoint_up(0, p, strtoull(w[5 + 5 * ns + 2 * k + 1], NULL, 10));
+    g_xsess[k] = g_sess[0];
+    if (!ok) { printf("bad-context"); goto down; }
+  }
+  t = open_memstream(&tbuf, &tlen);
+  printf("seq");
+  k = base;
+  while (k < n) {
+    int c = k + 1 < n ? atoi(w[k + 1]) : -1;
+    uint8_t *dg; size_t dglen;
+    coap_pdu_t *res;
+    int v;
+    if (c < 0 || c >= nc) { printf(" bad-step"); break; }
+    g_ctx[0] = g_xctx[c]; g_sess[0] = g_xsess[c];
+    if (!strcmp(w[k], "q") && k + 3 < n) {
+      coap_pdu_t *req = parse_hex(w[k + 2]);
+      if (!req) { printf(" req=bad-input"); break; }
+      dg = protect(0, req, 0, newmid, &dglen);
+      if (!dg) printf(" req=fail");
+      else {
+        printf(" req="); h_puthex(stdout, dg, dglen);
+        if (w[k + 3][0] == 'd') {
+          coap_bin_const_t tok = coap_pdu_get_token(req);
+          v = deliver(1, dg, dglen, &res);
+          printf(" ureq="); print_delivery(v, res);
+          fprintf(t, " s:");
+          fprint_sel(t, g_ctx[1], g_sess[1]->recipient_ctx);
+          trace_srv_assoc(t, &tok);
+        }
+        free(dg);
+      }
+      coap_delete_pdu(req);
+      k += 4;
+    } else if (!strcmp(w[k], "r") && k + 4 < n) {
+      coap_pdu_t *rsp = parse_hex(w[k + 2]);
+      uint64_t before[8];
+      coap_bin_const_t tok;
+      uint8_t tokb[8];
+      int i = 0, used = -1;
+      if (!rsp) { printf(" resp=bad-input"); break; }
+      tok = coap_pdu_get_token(rsp);
+      memcpy(tokb, tok.s, tok.length > 8 ? 8 : tok.length);
+      tok.s = tokb;
+      for (const oscore_ctx_t *pt = g_ctx[1]->p_osc_ctx; pt && i < 8; pt = pt->next, i++) before[i] = pt->sender_context->seq;
+      dg = protect(1, rsp, atoi(w[k + 3]), newmid, &dglen);
+      coap_delete_pdu(rsp);
+      i = 0;
+      for (const oscore_ctx_t *pt = g_ctx[1]->p_osc_ctx; pt && i < 8; pt = pt->next, i++)
+        if (before[i] != pt->sender_context->seq) used = i;
+      if (used >= 0) fprintf(t, " p:%d", used); else fprintf(t, " p:-");
+      trace_srv_assoc(t, &tok);
+      if (!dg) printf(" resp=fail");
+      else {
+        printf(" resp="); h_puthex(stdout, dg, dglen);
+        if (w[k + 4][0] == 'd') {
+          v = deliver(0, dg, dglen, &res);
+          printf(" uresp="); print_delivery(v, res);
+        }
+        free(dg);
+      }
+      k += 5;
+    } else { printf(" bad-step"); break; }
+  }
+  fclose(t);
+  printf(" |%s", tbuf);
+  free(tbuf);
+down:
+  for (k = 0; k < MAX_XC; k++) {
+    if (!g_xctx[k]) continue;
+    g_ctx[0] = g_xctx[k]; g_sess[0] = g_xsess[k];
+    endpoint_down(0);
+    g_xsess[k] = NULL;
+  }
+  g_ctx[0] = main0; g_sess[0] = NULL;
+  endpoint_down(1);
+}
+
 static void step(char *line) {
   static char *w[160];
   int n = h_words(line, w, 160);
@@ -673,6 +909,8 @@ static void step(char *line) {
   if (!strcmp(w[0], "oseq") && n >= 14) { do_oseq(w, n); return; }
   if (!strcmp(w[0], "oscm") && n >= 16) { do_oscm(w, n); return; }
   if (!strcmp(w[0], "findctx")) { do_findctx(w, n); return; }
+  if (!strcmp(w[0], "oinj") && n == 19) { do_oinj(w); return; }
+  if (!strcmp(w[0], "oscx") && n >= 8) { do_oscx(w, n); return; }
   if (!strcmp(w[0], "optenc") && n == 5) { do_optenc(w); return; }
   if (!strcmp(w[0], "optdec") && n == 2) { do_optdec(w); return; }
   if (!strcmp(w[0], "aad") && n == 4) { do_aad(w); return; }
